@@ -193,7 +193,16 @@ func dischargeAll(obls []*Obligation, dir string, timeout time.Duration, tier st
 					mt = append(mt, mv.Term)
 				}
 			}
-			r := solve(o.script, dir, o.Name, timeout, mt, tier == "thorough")
+			var r solveResult
+			if o.ExpectSat && tier != "thorough" && !strings.HasSuffix(o.Name, "#cover:pre") {
+				// vacuity guard of the quick tier: a contradictory path is refuted at once; anything else counts as reachable
+				file := filepath.Join(dir, sanitize(o.Name)+".smt2")
+				os.WriteFile(file, []byte(o.script), 0o644)
+				a, out, secs := runOne(context.Background(), solvers[1], file, 3*time.Second)
+				r = solveResult{answer: a, solver: solvers[1].name, secs: secs, output: out}
+			} else {
+				r = solve(o.script, dir, o.Name, timeout, mt, tier == "thorough")
+			}
 			o.Answer, o.Solver, o.Secs = r.answer, r.solver, r.secs
 			if o.ExpectSat {
 				switch r.answer {
